@@ -156,9 +156,9 @@ func sum(parts ...[]byte) Hash {
 }
 
 // LeafHash / InnerHash are the RFC-6962 style hashes of CometBFT's simple merkle tree.
-func LeafHash(b []byte) Hash     { return sum([]byte{0}, b) }
-func InnerHash(l, r Hash) Hash   { return sum([]byte{1}, l[:], r[:]) }
-func be64(v uint64) []byte       { return binary.BigEndian.AppendUint64(nil, v) }
+func LeafHash(b []byte) Hash      { return sum([]byte{0}, b) }
+func InnerHash(l, r Hash) Hash    { return sum([]byte{1}, l[:], r[:]) }
+func be64(v uint64) []byte        { return binary.BigEndian.AppendUint64(nil, v) }
 func lenPrefixed(b []byte) []byte { return append(uvarint(uint64(len(b))), b...) }
 
 func pbVarint(field int, v uint64) []byte {
